@@ -64,7 +64,7 @@ def write_dataset(d, ds, naming='ks', col1=False, id_dtype=np.int32, time_dtype=
     if ds.get('sc') is not None:
         np.save(d / names['sc'], vec(ds['sc'], id_dtype))
     if ds.get('amps') is not None:
-        np.save(d / names['amps'], vec(ds['amps'], np.float64))
+        np.save(d / names['amps'], vec(ds['amps'], ds.get('aux_dtype', np.float64)))
     np.save(d / names['chmap'], vec(ds['chmap'], np.int32))
     np.save(d / names['pos'], np.asarray(ds['pos'], dtype=np.float64))
     if ds.get('shanks') is not None:
@@ -84,7 +84,7 @@ def write_dataset(d, ds, naming='ks', col1=False, id_dtype=np.int32, time_dtype=
         elif key in ('pcf', 'tf'):
             np.save(d / fname, np.asarray(ds[key], dtype=float_dtype))
         else:
-            np.save(d / fname, np.asarray(ds[key], dtype=np.float64))
+            np.save(d / fname, np.asarray(ds[key], dtype=ds.get('aux_dtype', np.float64)))
     for name, arr in (ds.get('attrs') or {}).items():
         np.save(d / ('spike_%s.npy' % name), np.asarray(arr))
     for fname, text in (tsv or {}).items():
